@@ -18,7 +18,11 @@ impl<const N:usize, const SIZE: usize> MemBuilder for StackN<N, SIZE>{
 
     #[inline]
     fn build(&mut self, element_layout: Layout) -> Self::Mem {
-        assert!(N*element_layout.size() <= SIZE, "Insufficient storage!");
+        // checked_mul: N*size must not wrap around.
+        assert!(
+            matches!(N.checked_mul(element_layout.size()), Some(size) if size <= SIZE),
+            "Insufficient storage!"
+        );
         StackNMem{
             mem: MaybeUninit::uninit(),
             element_layout
